@@ -191,7 +191,7 @@ func (r *rInput) untouched() string {
 		return "the shared model was modified: " + modelDiff(r.pmCopy, r.pm)
 	}
 	for i := range r.fcopy {
-		if i >= len(r.files) || r.files[i] != r.fcopy[i] {
+		if i >= len(r.files) || r.files[i].Name != r.fcopy[i].Name || r.files[i].Contents != r.fcopy[i].Contents {
 			return "the shared module file list was modified"
 		}
 	}
